@@ -172,13 +172,6 @@ Proof.
   - intros H. exists x. split; [assumption | apply N.eqb_refl].
 Qed.
 
-(* the facts wf_table gives about one table *)
-Definition trait_ok (c : ctx) (subs : list (N * gmeta)) (elem : bool) (tr : trait) : bool :=
-  (t_fnum tr <? 65536) &&
-  match find_be (c_fields c) (t_fnum tr) with Some _ => true | None => false end &&
-  (negb (t_group tr) || match find_sub subs (t_fnum tr) with Some _ => true | None => false end) &&
-  (negb elem || (negb (t_present tr) && t_haspos tr && negb (t_auto tr))).
-
 Lemma wf_table_unfold c elem g :
   wf_table c elem g = true ->
   nodupN (map t_fnum (g_traits g)) = true /\
@@ -209,7 +202,8 @@ Proof.
   split; [apply N.ltb_lt; assumption|]. split.
   - destruct (find_be (c_fields c) f) as [ty|]; [eauto | discriminate].
   - split.
-    + intros Hg. rewrite (group_strip _ _ Hs) in Hg. rewrite Hg in H3. cbn in H3.
+    + intros Hg. rewrite (group_strip _ _ Hs) in Hg. rewrite Hg in H3. cbn [negb orb] in H3.
+      apply andb_true_iff in H3. destruct H3 as [H3 _].
       destruct (find_sub (g_subs g) f); [eauto | discriminate].
     + intros ->. cbn in H4. apply andb_true_iff in H4. destruct H4 as [H4 H5]. apply andb_true_iff in H4. destruct H4 as [_ H4].
       rewrite (haspos_strip _ _ Hs), (auto_strip _ _ Hs). split; [assumption|]. destruct (t_auto tr'); [discriminate | reflexivity].
@@ -891,7 +885,8 @@ Lemma wf_ctx_parts c : wf_ctx c = true ->
 Proof.
   unfold wf_ctx. intros H. repeat (apply andb_true_iff in H; destruct H as [H ?]).
   repeat split; try assumption. intros md Hin.
-  match goal with Hf : forallb _ (c_msgs c) = true |- _ => rewrite forallb_forall in Hf; apply Hf; assumption end.
+  match goal with Hf : forallb (fun md => wf_body c (md_meta md)) (c_msgs c) = true |- _ =>
+    rewrite forallb_forall in Hf; apply Hf; assumption end.
 Qed.
 
 Lemma c04_accept_sound_lemma : forall c bytes m,
